@@ -24,7 +24,7 @@ def run_case(case, strict=False):  # pylint: disable=unused-argument
     findings = asserts.c03(tr)
     cl, _ = asserts.classes(tr, case)
     return findings, {"nontrivial": "position_changed_while_suppressed" in cl, "classes": sorted(cl),
-                      "truncated": tr.truncated,
+                      "truncated": tr.truncated, "excluded_known": case.get("meta", {}).get("excluded_known", 0),
                       "sample": {"regions": case["regions"], "config": case["config"],
                                  "prog": [i[1] if i[0] == "g" else i for i in case["prog"]]}}
 
